@@ -34,7 +34,7 @@ READY = True
 LEAN_TARGETS = ["NauyacaVerif.Props.C20"]
 THEOREMS = [f"NauyacaVerif.C20.{t}" for t in
             ("paths_complete", "table_min", "table_max", "no_old_tls", "no_old_tls'", "refuses_old_peer", "serves_modern",
-             "inner_needs_final", "no_plaintext")]
+             "control_negotiates_old", "inner_needs_final", "no_plaintext", "inner_after_handshake", "no_plaintext_first_read")]
 EXTRACT: list[str] = []
 LEVEL_TEXT = "partial"
 LEVEL_NOTE = ("version negotiation and record parsing are OpenSSL's and are not modelled: the theorems are about the configuration "
@@ -310,7 +310,7 @@ PLAIN_LINES = [b"gemini://localhost/\r\n", b"gemini://localhost/secret.gmi\r\n",
 class Plaintext(Family):
     name = "plaintext"
     quick_n = 1600
-    thorough_n = 24000
+    thorough_n = 160000
 
     def gen(self, rng: random.Random, n: int):
         for i in range(n):
@@ -434,7 +434,7 @@ class Live(Family):
     name = "live"
     parallel = False
     quick_n = 4
-    thorough_n = 72
+    thorough_n = 160
 
     def gen(self, rng: random.Random, n: int):
         combos = [(b, s) for b in ("std", "pyo") for s in (True, False)]
